@@ -56,6 +56,45 @@ theorem other_coords_iff_fit_and_keep (dsCoords : List CoordM) (resDims : List S
   · rintro ⟨h1, h2⟩; exact ⟨h2, h1⟩
   · rintro ⟨h1, h2⟩; exact ⟨h2, h1⟩
 
+/-- nothing is invented: every coordinate on the result is one of the grid dataset's, and all its
+    dimensions are dimensions of the result -/
+theorem attached_are_dataset_coords_that_fit (dsCoords : List CoordM) (resDims : List String) (keep : Bool)
+    (c : CoordM) (hc : c ∈ reattach dsCoords resDims keep) :
+    c ∈ dsCoords ∧ ∀ d ∈ c.dims, d ∈ resDims := by
+  simp only [reattach, List.mem_filter, List.all_eq_true] at hc
+  exact ⟨hc.1.1, fun d hd => by simpa using hc.1.2 d hd⟩
+
+/-- with keep_coords = False only dimension coordinates remain -/
+theorem without_keep_only_dimension_coords (dsCoords : List CoordM) (resDims : List String) (c : CoordM)
+    (hc : c ∈ reattach dsCoords resDims false) : c.name ∈ resDims := by
+  simp only [reattach, List.mem_filter, Bool.false_or] at hc
+  simpa using hc.2
+
+/-- the labelling depends on the SET of result dimensions only, not on their order (the order in
+    which several axes were operated on, transposed inputs) -/
+theorem labelling_dim_order_free (dsCoords : List CoordM) (d1 d2 : List String) (keep : Bool)
+    (h : ∀ x, x ∈ d1 ↔ x ∈ d2) : reattach dsCoords d1 keep = reattach dsCoords d2 keep := by
+  have hc : ∀ x, d1.contains x = d2.contains x := by
+    intro x
+    by_cases hx : x ∈ d1
+    · have := (h x).1 hx; simp [hx, this]
+    · have : x ∉ d2 := fun h2 => hx ((h x).2 h2)
+      simp [hx, this]
+  simp only [reattach, hc]
+
+/-- shifting two different axes in either order leaves the same dimensions -/
+theorem shifts_commute (dims : List String) (a a' b b' : String) (hab : a ≠ b) (h1 : a' ≠ b) (h2 : b' ≠ a) :
+    shiftDims (shiftDims dims a a') b b' = shiftDims (shiftDims dims b b') a a' := by
+  simp only [shiftDims, List.map_map]
+  apply List.map_congr_left
+  intro d _
+  simp only [Function.comp]
+  by_cases hda : d = a
+  · subst hda; simp [hab, h1]
+  · by_cases hdb : d = b
+    · subst hdb; simp [hda, h2]
+    · simp [hda, hdb]
+
 /-- non-vacuity -/
 example : reattach [⟨"xc", ["xc"]⟩, ⟨"xg", ["xg"]⟩, ⟨"lon_g", ["xg", "yc"]⟩, ⟨"yc", ["yc"]⟩, ⟨"mask_c", ["xc", "yc"]⟩]
     (shiftDims ["yc", "xc"] "xc" "xg") true = [⟨"xg", ["xg"]⟩, ⟨"lon_g", ["xg", "yc"]⟩, ⟨"yc", ["yc"]⟩] := by
